@@ -179,6 +179,7 @@ def run(ctx, chk, tier):
         for k, g, w in bad:
             chk.violation("R19.5", flq, "arg:" + k, show(g, 140) if g is not None else "missing", show(w, 140), ctx.where(flq))
     alias_setters(ctx, chk, ci)
+    caches_follow_setters(ctx, chk, ci)
     class_blind(ctx, chk, ci)
 
 
@@ -210,6 +211,56 @@ def alias_setters(ctx, chk, ci):
         else:
             chk.violation("R19.6", q, "setter:" + prop, "self.%s = %s, self.%s = %s" % (attr, show(o.attrs.get(attr), 60), other, show(o.attrs.get(other), 60)),
                           "self.%s = v, self.%s unchanged" % (attr, other), ctx.where(FRAUD + ".__init__"))
+
+
+CACHE_DECORATORS = {"cached_property", "lru_cache", "cache"}
+
+
+def caches_follow_setters(ctx, chk, ci):
+    """R19.8 the alias setters re-bind self.pos / self.neg after construction, so no inherited result may be cached per object without depending on
+    them: a functools cache (cached_property / lru_cache / cache) on a method in the MRO whose body reads - directly or through other methods and
+    properties of the class - an attribute that a setter re-binds would keep answering for the old scores."""
+    import ast
+    from .c10 import rebindable_attrs
+    rb = rebindable_attrs(ctx.db, ci)
+    mro = [c for c in ci.mro() if hasattr(c, "methods")]
+
+    def lookup(name):
+        for c in mro:
+            if name in c.methods:
+                return c.methods[name]
+        return None
+
+    def reads(fi, depth=0, seen=None):
+        seen = set() if seen is None else seen
+        if fi is None or fi.qualname in seen or depth > 4:
+            return set()
+        seen.add(fi.qualname)
+        out = set()
+        for n in ast.walk(fi.node):
+            if isinstance(n, ast.Attribute) and isinstance(n.value, ast.Name) and n.value.id == "self" and isinstance(n.ctx, ast.Load):
+                out.add(n.attr)
+                out |= reads(lookup(n.attr), depth + 1, seen)
+        return out
+
+    n_cached = 0
+    for c in mro:
+        for name, fi in c.methods.items():
+            decos = {ast.unparse(d.func if isinstance(d, ast.Call) else d).split(".")[-1] for d in fi.node.decorator_list}
+            hit = decos & CACHE_DECORATORS
+            if not hit:
+                continue
+            n_cached += 1
+            stale = sorted(a for a in reads(fi) if a in rb)
+            inst = "cache:%s.%s" % (c.qualname.split(".")[-1], name)
+            if stale:
+                chk.violation("R19.8", fi.qualname, inst, "@%s result depends on self.%s, which %s re-binds after construction" % (sorted(hit)[0], stale[0], rb[stale[0]]),
+                              "results of the inherited API follow the scores currently attached through the aliases (no per-object cache over re-bindable state)",
+                              "%s:%d" % (fi.module.relpath, fi.node.lineno))
+            else:
+                chk.hold("R19.8", inst, "cached value reads no attribute that a setter re-binds")
+    if not n_cached:
+        chk.hold("R19.8", "no-functools-cache", "no functools cache on any method in the MRO of FraudScores (%d re-bindable attributes: %s)" % (len(rb), ", ".join(sorted(rb)[:6])), nontrivial=False)
 
 
 def class_blind(ctx, chk, ci):
